@@ -330,7 +330,12 @@ pub fn source_id(e: Option<&(dyn std::error::Error + 'static)>) -> String {
         None => "None".into(),
         Some(e) => match e.downcast_ref::<Leaf>() {
             Some(l) => format!("Leaf({})@{}", l.0, addr(l)),
-            None => format!("Other({})@{}", e, addr(e)),
+            // a field of type `&'static Leaf`: whether the reference itself or its referent is handed out as the
+            // error object is not pinned down; both are identified by the referent
+            None => match e.downcast_ref::<&'static Leaf>() {
+                Some(l) => format!("Leaf({})@{}", l.0, addr(*l)),
+                None => format!("Other({})@{}", e, addr(e)),
+            },
         },
     }
 }
